@@ -147,6 +147,7 @@ def run(ck):
         "interest/hint/enabled agree. Layered::pick_interest/pick_level_hint as a whole are NOT decided (no sound oracle "
         "from shapes); only their None-layer branches are checked for presence.")
     ck.assumptions += ["children are self-consistent (never => false, always => true)", "fewer than 64 filters"]
+    ck.rule("C08.R9", "a Vec / Layered tree replaces its computed interest by the per-filter sum only if every part is per-layer-filtered (as C07.R7)", floor=2)
     ck.rule("C08.R8", "level hints and thresholds are compared by a correct total order (as C19.R1/R2/R4)", floor=60)
     ck.rule("C08.R1", "And/Or/Not: interest table sound w.r.t. enabled; hint is a sound bound", floor=6)
     ck.rule("C08.R2", "Option<F>: None is neutral, Some forwards", floor=4)
@@ -157,6 +158,8 @@ def run(ck):
     ck.rule("C08.R7", "None-layer hint corrected at composition", floor=1)
     from rules import C19
     C19.order_rules(ck, F, "C08.R8")
+    from rules import C07
+    C07.r7(ck, F, rid="C08.R9")
     r1(ck, F)
     r2(ck, F)
     r3(ck, F)
@@ -239,9 +242,9 @@ def r2(ck, F, rid="C08.R2"):
             ck.bad(rid, key, where(b.raw["sp"]), "None must be neutral (true / always / no hint) and Some must forward; got %s with closure %s" % (r, fw), fn=b.path)
 
 
-def r3(ck, F):
+def r3(ck, F, rid="C08.R3"):
     b = F.body("tracing_subscriber::filter::subscriber_filters::FilterState::add_interest")
-    if ck.anchor("C08.R3", "FilterState::add_interest", b):
+    if ck.anchor(rid, "FilterState::add_interest", b):
         # rows: current None -> store interest; current Some(c): c always & new !always -> sometimes; c never & new !never -> sometimes; else keep
         ok = True
         why = ""
@@ -259,16 +262,16 @@ def r3(ck, F):
                 if bool(differs) != wrote_sometimes:
                     ok, why = False, "row %s writes sometimes=%s" % (conds, wrote_sometimes)
         if ok and seen == {True, False}:
-            ck.ok("C08.R3", "add_interest: differing interests accumulate to sometimes, equal ones are kept", fn=b.path)
+            ck.ok(rid, "add_interest: differing interests accumulate to sometimes, equal ones are kept", fn=b.path)
         else:
-            ck.bad("C08.R3", "add_interest: differing interests accumulate to sometimes, equal ones are kept", where(b.raw["sp"]), why or "table incomplete", fn=b.path)
+            ck.bad(rid, "add_interest: differing interests accumulate to sometimes, equal ones are kept", where(b.raw["sp"]), why or "table incomplete", fn=b.path)
     a = F.body(INT + "and")
-    if ck.anchor("C08.R3", "Interest::and", a):
+    if ck.anchor(rid, "Interest::and", a):
         ne = [show(p.ret) for p in PathEval(a).run() if p.end == "return" and p.conds and p.conds[0][1] == 0]
         if ne == ["sometimes()"]:
-            ck.ok("C08.R3", "Interest::and: disagreement -> sometimes (see C01.R4)", fn=a.path)
+            ck.ok(rid, "Interest::and: disagreement -> sometimes (see C01.R4)", fn=a.path)
         else:
-            ck.bad("C08.R3", "Interest::and: disagreement -> sometimes", where(a.raw["sp"]), "on disagreement returns %s" % ne, fn=a.path)
+            ck.bad(rid, "Interest::and: disagreement -> sometimes", where(a.raw["sp"]), "on disagreement returns %s" % ne, fn=a.path)
 
 
 def level_cmp(txt):
